@@ -68,6 +68,67 @@ theorem C15_accept (cd : Codec) (s : RState) (p : Packet) (d : Bytes)
 example : (recv std ⟨true, 65535, [], 0⟩ ⟨true, 65535, [81, 85, 74, 68]⟩) =
     (⟨true, 0, [65, 66, 67], 0⟩, .ack) := by decide
 
+/-- the limit set by `SetReadBuffer` is the requested one, clamped only by the block size -/
+theorem C15_limit_clamp (n bs : Nat) :
+    (n = 0 → clampLimit n bs = 0) ∧ (0 < n → n < bs → clampLimit n bs = bs) ∧ (bs ≤ n → clampLimit n bs = n) := by
+  unfold clampLimit
+  refine ⟨?_, ?_, ?_⟩
+  · intro h; simp [h]
+  · intro h1 h2; simp [h1, h2]
+  · intro h; split
+    · omega
+    · rfl
+
+/-- C15_refuse_oversize over histories with limit changes: whenever the limit was last set to
+`n` (at any point of the history, whatever the buffer held or had grown to before), a decodable
+in-sequence packet that would take the buffer beyond the clamped `n` is refused with
+resource-constraint and changes nothing; one that fits is accepted -/
+theorem C15_refuse_oversize_after_set_limit (cd : Codec) (s : RState) (n bs : Nat) (p : Packet) (d : Bytes)
+    (hk : p.known = true) (hl : s.live = true) (hs : p.seq = s.seq) (h : cd.dec p.payload = some d) :
+    let s' := setMax s n bs
+    (clampLimit n bs > 0 → s.buf.length + d.length > clampLimit n bs → recv cd s' p = (s', .resourceConstraint)) ∧
+    ((clampLimit n bs = 0 ∨ s.buf.length + d.length ≤ clampLimit n bs) → (recv cd s' p).2 = .ack) := by
+  constructor
+  · intro hm hb
+    exact C15_refuse_oversize cd (setMax s n bs) p d hk hl hs h hm hb
+  · intro hroom
+    have := C15_accept cd (setMax s n bs) p d hk hl hs h hroom
+    rw [this]
+
+/-- changing the limit touches nothing else (buffer, expected number, liveness) -/
+theorem C15_set_limit_only_limit (s : RState) (n bs : Nat) :
+    (setMax s n bs).buf = s.buf ∧ (setMax s n bs).seq = s.seq ∧ (setMax s n bs).live = s.live := ⟨rfl, rfl, rfl⟩
+
+/-! ### listener life cycle: open-iff-accepted on the initiator's side for every listener state -/
+
+/-- an open request is answered `result` exactly when a listener is registered at that moment
+(and the serve loop is free to handle it), `not-acceptable` otherwise; a refused request registers
+nothing -/
+theorem C15_open_reply_iff_listening (s : LState) (sid : Nat) (hp : s.pending = none) :
+    ((lstep s (.open sid)).reply = some true ↔ s.listening = true) ∧
+    ((lstep s (.open sid)).reply = some false ↔ s.listening = false) ∧
+    (s.listening = false → (lstep s (.open sid)).st = s) := by
+  cases hl : s.listening <;> simp [lstep, hl, hp] <;> split <;> simp
+
+/-- after the listener was closed (and until somebody listens again) every open is refused and no
+`Accept` can succeed -/
+theorem C15_closed_listener_refuses (s : LState) (sid : Nat) :
+    let s' := (lstep s .closeL).st
+    (lstep s' (.open sid)).reply = some false ∧ (lstep s' (.open sid)).st = s' ∧
+    (lstep s' .accept).conns = 0 ∧ (lstep s' .accept).errs = 1 ∧ s'.pending = none := by
+  simp [lstep]
+
+/-- closing the listener ends every waiting `Accept` with an error and drops a stream that was
+still waiting to be accepted -/
+theorem C15_close_listener_releases (s : LState) :
+    (lstep s .closeL).errs = s.acceptors ∧ (lstep s .closeL).st.acceptors = 0 ∧
+    (∀ sid, s.pending = some sid → (lstep s .closeL).st.streams = s.streams.erase sid) := by
+  refine ⟨rfl, rfl, ?_⟩
+  intro sid h; simp [lstep, h]
+
+example : (lstep (lstep (lstep {} .listen).st .closeL).st (.open 1)).reply = some false := by decide
+example : (lstep (lstep (lstep (lstep {} .listen).st .closeL).st .listen).st (.open 1)).reply = some true := by decide
+
 /-- injected bad packets (anything that is refused) can be dropped from the history: the
 receiver ends in the same state -/
 theorem C15_bad_packets_harmless (cd : Codec) (s : RState) (p : Packet) (ps : List Packet)
